@@ -25,6 +25,7 @@ import Pandora.Bridge.C02DoAt
 import Pandora.Proofs.C02Cb
 import Pandora.Bridge.C02Cb
 import Pandora.Bridge.C02Src
+import Pandora.Bridge.C02IStep
 
 set_option linter.unusedVariables false
 
@@ -711,6 +712,15 @@ theorem C02_left_is_source {σ : Type} (ops : Ops σ) :
         | .shift => Pandora.Bridge.C02Src.seqShift ops started c' rest la now)) :=
   ⟨fun s now c rest hcs c' left hl => Pandora.Bridge.C02Src.leftReader_is_source ops s now c rest hcs c' left hl,
    fun started c rest la now => Pandora.Bridge.C02Src.compLeftAux_is_source ops started c rest la now⟩
+
+/-- **`instance_step` of the model is `NewInstanceStep` of the source** (`Gen/Schedule.lean` re-translates
+instance_step.go on every check): with a `doAt` leaf read as its enumerated offsets and a composite as its children,
+the source builds exactly `instanceStepTree from to step stepDuration` — `once(from)`, then for every
+i = from+step, from+2·step, … ≤ to a token-less part of `stepDuration` followed by `once(step)`. -/
+theorem C02_instance_step_is_source (frm upto step : Nat) (hs : 1 ≤ step) (dur : Int) :
+    Pandora.Bridge.C02IStep.toTree (Pandora.Gen.Schedule.NewInstanceStep (frm : Int) (upto : Int) (step : Int) dur) =
+      instanceStepTree frm upto step dur :=
+  Pandora.Bridge.C02IStep.instanceStep_bridge frm upto step hs dur
 
 /-! ## non-vacuity -/
 
